@@ -66,8 +66,21 @@ def op_codeconv(c):
         for co in all_codes(top, []):
             codes.append((name, co))
     step = max(1, len(codes) // c.get("max_codes", 400))
+    picked = codes[::step]
+    # fields varied one at a time on real code objects (values the compiler does not produce together but the host accepts): a round trip
+    # that recomputes one field from another, masks flag bits or assumes text is ASCII shows here
+    variants = []
+    fn_codes = [co for _, co in codes if co.co_name != "<module>" and co.co_varnames][:3]
+    for co in fn_codes:
+        for label, kw in (("nlocals+2", {"co_nlocals": co.co_nlocals + 2}), ("stacksize+7", {"co_stacksize": co.co_stacksize + 7}),
+                          ("flag-annotations", {"co_flags": co.co_flags | 0x1000000}), ("firstlineno-0", {"co_firstlineno": 0}),
+                          ("firstlineno-70000", {"co_firstlineno": 70000}), ("name-non-ascii", {"co_name": "n\u00e9_\u4e2d"}), ("filename-empty", {"co_filename": ""})):
+            try:
+                variants.append(("variant:" + label, co.replace(**kw)))
+            except Exception:
+                pass        # this host does not accept the combination (3.11+ ties co_nlocals to the variable tables)
     out = []
-    for name, co in codes[::step]:
+    for name, co in picked + variants:
         rec = {"src": name, "name": co.co_name, "line": co.co_firstlineno, "host": list(sys.version_info[:2])}
         nat = data_attrs(co)
         rec["native"] = [[k, h(v)] for k, v in nat]
